@@ -354,7 +354,29 @@ func runReplay(dir, pkgDir string) (bool, string) {
 		out = out[:4000]
 	}
 	os.WriteFile(filepath.Join(dir, "replay_output.txt"), b, 0o644)
-	return strings.Contains(out, "REPRODUCED"), out
+	return strings.Contains(out, "REPRODUCED") || realCodePanicked(string(b), root), out
+}
+
+// realCodePanicked: the replay test died with a Go panic raised in the real code (the innermost frame inside the tree
+// under test is not a _test.go file), e.g. in a goroutine the code under test started, where the template cannot
+// recover it.
+func realCodePanicked(out, root string) bool {
+	i := strings.Index(out, "panic: ")
+	if i < 0 {
+		return false
+	}
+	for _, l := range strings.Split(out[i:], "\n") {
+		l = strings.TrimSpace(l)
+		if !strings.HasPrefix(l, "/") || !strings.Contains(l, ".go:") {
+			continue
+		}
+		if strings.Contains(l, "/src/runtime/") || strings.Contains(l, "/src/testing/") {
+			continue
+		}
+		file := l[:strings.Index(l, ".go:")+3]
+		return !strings.HasSuffix(file, "_test.go")
+	}
+	return false
 }
 
 // cmdReplay: `govc replay <dir>` shows what a check wrote for a failed obligation and, when a replay test was
